@@ -4,6 +4,7 @@ import NrDaemon.Lemmas.Metrics
 import NrDaemon.Props.C06
 import NrDaemon.Lemmas.AppLimit
 import NrDaemon.Props.Tied
+import NrDaemon.Gen.Skeleton
 /-!
   C05 — buffers are bounded by the negotiated capacities and counted exactly.
 -/
@@ -210,3 +211,35 @@ theorem C05_fixed_capacity_bounds :
   · intro obs
     have h := C06_slow_sql_topk MaxSlowSQLs obs
     exact ⟨by simpa [MaxSlowSQLs] using h.1, h.2.1⟩
+
+/-- `processAppInfo` today: a presented run id is confirmed iff the run is held; a known application only has its activity
+refreshed; an unknown one is admitted only below `limits.AppLimit`; in every case the reply is built from the application's
+state in a deferred function, which also considers a connect -/
+def reviewedProcessAppInfo : List String := [
+  "r := <*ast.CompositeLit>",
+  "defer func(){if nil!=app {; r.State = app.state; if AppStateConnected==app.state {; r.ConnectReply = app.RawConnectReply; r.SecurityPolicies = app.RawSecurityPolicies; r.ConnectTimestamp = uint64(…); r.HarvestFrequency = uint16(…); r.SamplingTarget = uint16(…); }; }; m.ResultChan <- r; if nil!=app {; p.considerConnect(…); }}()",
+  "if nil!=m.ID {",
+  "if ok {",
+  "r.RunIDValid = true",
+  "return",
+  "}",
+  "}",
+  "key := m.Info.Key(…)",
+  "app = p.apps[key]",
+  "if nil!=app {",
+  "app.LastActivity = time.Now(…)",
+  "return",
+  "}",
+  "numapps := len(…)",
+  "if numapps>=limits.AppLimit {",
+  "return",
+  "}",
+  "app = NewApp(…)",
+  "p.apps[key] = app",
+  "numapps = len(…)",
+  "if numapps==limits.AppLimitNotifyHigh {",
+  "}"
+]
+
+/-- **C05 / C03 (tie: the application table is maintained as the model says).** -/
+theorem C05_appinfo_source_tied : Gen.Skeleton.processAppInfo = reviewedProcessAppInfo := rfl
